@@ -2022,6 +2022,13 @@ def repeated_statements(k):
     out.append(("task_flags", head % "" + "flags " + ", ".join("f%d" % i for i in range(k)) + '\nresource r1 "R1" {}\ntask tgt "T" {\n  effort 5d\n  allocate r1\n' + rep(lambda i: "  flags f%d\n" % i) + "}\n"))
     out.append(("nested_containers", head % "" + 'resource r1 "R1" {}\n' + rep(lambda i: "  " * i + 'task c%d "C" {\n' % i) + "  " * k + 'task leaf "L" { effort 2d allocate r1 }\n' + "".join("  " * (k - 1 - i) + "}\n" for i in range(k))))
     out.append(("nested_containers_stuck", head % "" + 'resource r1 "R1" {\n  leaves annual 2025-01-01 - 2026-06-01\n}\nresource r2 "R2" {}\n' + rep(lambda i: "  " * i + 'task c%d "C" {\n' % i) + "  " * k + 'task leaf "L" { effort 2d allocate r1 }\n' + "".join("  " * (k - 1 - i) + "}\n" for i in range(k)) + 'task w "W" { effort 5d allocate r2 }\n'))
+    # chains of 10 k tasks (the cost of finding predecessors / successors must not grow with the square or cube of the chain)
+    n10 = 10 * k
+    chain = lambda extra: "".join('task t%d "T" { effort 1h allocate r1 %s%s }\n' % (i, "depends !t%d" % (i - 1) if i else "", extra(i)) for i in range(n10))
+    out.append(("chain_asap", head % "" + 'resource r1 "R1" {}\n' + chain(lambda i: "")))
+    out.append(("chain_alap_anchor", head % "" + 'resource r1 "R1" {}\n' + chain(lambda i: " scheduling alap end 2025-06-27-17:00" if i == n10 - 1 else "")))
+    out.append(("chain_alap_project", head % "  scheduling alap\n" + 'resource r1 "R1" {}\n' + chain(lambda i: "")))
+    out.append(("independent_tasks", head % "" + rep(lambda i: 'resource q%d "Q" {}\n' % i) + "".join('task u%d "U" { effort 2h allocate q%d }\n' % (i, i % k) for i in range(n10 * 3))))
     out.append(("nested_groups", head % "" + rep(lambda i: "  " * i + 'resource g%d "G" {\n' % i) + "  " * k + 'resource r1 "R1" {}\n' + "".join("  " * (k - 1 - i) + "}\n" for i in range(k)) + work))
     out.append(("scenarios_flat", head % ('  scenario plan "Plan" {\n' + rep(lambda i: '    scenario s%d "S"\n' % i) + "  }\n") + 'resource r1 "R1" {}\n' + work))
     out.append(("reports", head % "" + 'resource r1 "R1" {}\n' + work + rep(lambda i: 'taskreport rep%d "rep%d" {\n  formats csv\n  columns id, start, end\n}\n' % (i, i))))
@@ -2072,6 +2079,6 @@ def odd_inputs():
     add("shift_forward_ref", "", 'resource late "L" { workinghours s1 }\nshift s1 "S1" { workinghours mon - fri 06:00 - 10:00 }\ntask a "A" { effort 8h allocate late }\n')
     add("hours_24", "", 'resource n "N" { workinghours mon - sun 0:00 - 24:00 }\ntask a "A" { effort 100h allocate n }\n')
     add("end_only_ms_dep", "", 'task a "A" { effort 5d allocate r }\ntask m "M" { milestone end 2024-01-03 depends !a }\n')
-    add("alap_chain_long", "", "".join('task t%d "T" { effort 1h allocate r %s }\n' % (i, "depends !t%d" % (i - 1) if i else "") for i in range(300))
-        + 'task last "L" { effort 1h allocate r depends !t299 scheduling alap end 2024-03-29 }\n', "+3m")
+    add("alap_chain_long", "", "".join('task t%d "T" { effort 1h allocate r %s }\n' % (i, "depends !t%d" % (i - 1) if i else "") for i in range(1200))
+        + 'task last "L" { effort 1h allocate r depends !t1199 scheduling alap end 2024-09-27 }\n', "+9m")
     return out
